@@ -62,6 +62,7 @@ func init() {
 			{ID: "C04-R4", Title: "message shape: one State item, spec values, signed material order, sub-TLV tags, stable session objects", Decides: "responses parse at a conformant controller", Floor: 10, Run: c04r4},
 			{ID: "C04-R5", Title: "constant tables", Decides: "TLV tags, states and methods are the specification's", Floor: 25, Run: c04r5},
 			{ID: "C04-R6", Title: "frame layout of the encrypted session (shared with C06-R1/R4)", Decides: "encrypted requests of any size are read", Floor: 3, Run: c04r6},
+			{ID: "C04-R7", Title: "failed attempts leave the controller ready; frame counters continuous; no cross-connection state in the endpoints; stateless wrappers", Decides: "a conformant controller can retry, and can keep talking after a multi-frame request", Floor: 8, Run: c04r7},
 		},
 	})
 }
